@@ -234,6 +234,12 @@ impl Session {
         })
     }
 
+    /// Verification hook: the receive window of this session.
+    #[cfg(rs_matter_verif)]
+    pub fn verif_rx_ctr_state(&mut self) -> &mut RxCtrState {
+        &mut self.rx_ctr_state
+    }
+
     /// Get the internal ID of the session
     /// This ID is guaranteed to be unique across all sessions
     pub const fn id(&self) -> u32 {
